@@ -438,7 +438,7 @@ impl Chooser {
                     self.streak = 0;
                     self.last = Some(t);
                 }
-                if self.change_at.contains(&i) || self.streak > 4000 {
+                if self.change_at.contains(&i) || self.streak > 500 {
                     // demote the running thread below everyone else (a priority change point, or it has
                     // been spinning at synchronisation points for thousands of grants: starvation guard)
                     self.demotions += 1;
@@ -496,6 +496,9 @@ pub fn run_plan(plan: &SchedPlan, shared: &Shared, ref_shared: &Shared, refs: &m
                 let yields_total = &yields_total;
                 s.spawn(move || {
                     tok::enter(&sim, i);
+                    if tp.stall_after.is_some() {
+                        sim.no_wait[i].store(true, std::sync::atomic::Ordering::SeqCst);
+                    }
                     sim.wait_turn(i);
                     let mut died = false;
                     for (oi, op) in tp.ops.iter().enumerate() {
@@ -503,6 +506,7 @@ pub fn run_plan(plan: &SchedPlan, shared: &Shared, ref_shared: &Shared, refs: &m
                         let harness_died = matches!(outcome, Outcome::HarnessDied);
                         results[i].lock().unwrap().push((outcome, claims));
                         progress[i].lock().unwrap().0 = oi + 1;
+                        sim.ops_done[i].store(oi + 1, std::sync::atomic::Ordering::SeqCst);
                         if harness_died || tp.die_after == Some(oi) {
                             // the thread dies here: unwinds through the harness, dropping its objects
                             died = true;
@@ -523,6 +527,7 @@ pub fn run_plan(plan: &SchedPlan, shared: &Shared, ref_shared: &Shared, refs: &m
                             std::panic::panic_any(HarnessPanic);
                         }));
                     }
+                    sim.no_wait[i].store(true, std::sync::atomic::Ordering::SeqCst);
                     *yields_total.lock().unwrap() += tok::leave();
                     sim.give_back(i, true, "finished");
                 });
@@ -627,7 +632,13 @@ pub fn run_plan(plan: &SchedPlan, shared: &Shared, ref_shared: &Shared, refs: &m
                     }
                 }
                 if decisions.len() > 400_000 {
-                    stalled = Some(format!("no termination after {} scheduling decisions (threads {:?} unfinished): livelock", decisions.len(), unfinished));
+                    let detail: Vec<String> = unfinished.iter().map(|t| format!("thread {}: {}", t, sim.describe(*t))).collect();
+                    stalled = Some(format!(
+                        "no termination after {} scheduling decisions (threads {:?} unfinished): a thread waits inside a call-back for another thread that cannot make progress, or a spin loop never ends [{}]",
+                        decisions.len(),
+                        unfinished,
+                        detail.join("; ")
+                    ));
                     let r = SRun {
                         violation: None,
                         digest: 0,
@@ -855,6 +866,7 @@ pub fn run_plan(plan: &SchedPlan, shared: &Shared, ref_shared: &Shared, refs: &m
     cnt.add("yields_inside_calls", yields_n);
     cnt.add("sync_points_reached", sim.sync_points.load(std::sync::atomic::Ordering::Relaxed));
     cnt.add("threads_found_blocked_on_a_lock", blocked_events);
+    cnt.add("reads_that_waited_for_another_thread", sim.dependent_waits.load(std::sync::atomic::Ordering::Relaxed));
     dg.u64(ops_run as u64);
     SRun {
         violation,
@@ -965,7 +977,7 @@ const FAMS: &[Fam] = &[
         },
     },
     Fam { name: "encode", cost: 200, gen: |r, _| if r.chance(1, 3) { gop("compress", &[r.below(6)], r) } else { gop("decode", &[r.below(20), r.below(2)], r) } },
-    Fam { name: "serdes", cost: 400, gen: |r, _| match r.below(4) { 0 => Op::new("fr_serdes", &[r.below(8)]), 1 => Op::new("fq12_serdes", &[r.below(6)]), _ => gop("serdes", &[r.below(6), r.below(2), r.below(2)], r) } },
+    Fam { name: "serdes", cost: 400, gen: |r, _| match r.below(4) { 0 => Op::new("fr_serdes", &[r.below(8), r.below(3)]), 1 => Op::new("fq12_serdes", &[r.below(6), r.below(3)]), _ => gop("serdes", &[r.below(6), r.below(2), r.below(2), r.below(3)], r) } },
     Fam { name: "h2c", cost: 1200, gen: |r, _| gop(if r.chance(1, 2) { "h2c" } else { "e2c" }, &[r.below(4), r.below(6), r.below(4)], r) },
     Fam { name: "insub", cost: 400, gen: |r, _| gop("insub", &[r.below(8)], r) },
     Fam { name: "prepare", cost: 300, gen: |r, _| gop("prepare", &[r.below(6)], r) },
